@@ -98,7 +98,22 @@ Proof.
 Qed.
 
 Definition rk_prod (k : rkey) : str * str :=
-  match k with RDir s n => (s, n) | RVer s k => (s, fst k) | RChain s k => (s, fst k) end.
+  match k with
+  | RDir s n => (s, n) | RVer s k => (s, fst k) | RChain s k => (s, fst k)
+  | RUDir _ s n => (s, n) | RUChain _ s k => (s, fst k)
+  end.
+
+(* the keys of the users' tag directories *)
+Definition is_ukey (k : rkey) : bool := match k with RUDir _ _ _ | RUChain _ _ _ => true | _ => false end.
+
+(* no record effect stamps a file of a tag directory *)
+Lemma stamp_effect_ukey e d t st k : is_ukey k = true ->
+  glookup rkey_eqb k (stamp_effect e d t st) = glookup rkey_eqb k st.
+Proof.
+  intro H. unfold stamp_effect, sset.
+  destruct e as [s' n'|s' n'|s' k' c'|s' k'|s' k' c'|s' k']; try (destruct (db_has_dir d s' n'));
+    rewrite ?(glookup_gset_other rkey_eqb rkey_eqb_eq); try reflexivity; intro E; subst k; discriminate.
+Qed.
 
 Lemma stamp_effect_frame e d t st k :
   rk_prod k <> (eff_stack e, eff_name e) ->
